@@ -176,6 +176,29 @@ fn run_gen(a: &[Sx]) -> String {
     }
 }
 
+/// `(init n default)`: the matrix `AcoGeneration::init` inserts for an instance of `n` cities (read back whole).
+fn run_init(a: &[Sx]) -> String {
+    let n = a[0].nat().unwrap() as usize;
+    let v = a[1].float().unwrap();
+    let problem = tsp_of(n, &vec![1.0; n * n]);
+    let mut state: State<P> = State::new();
+    state.insert(Populations::<P>::new());
+    state.insert(Random::new(0));
+    // other parameters deliberately different from the default trail value
+    let gen = AcoGeneration::new::<P>(3, 0.25, 0.75, v);
+    match catch(|| gen.init(&problem, &mut state)) {
+        Some(Ok(())) => {
+            let dim_ok = catch(|| { let pm = state.borrow::<PheromoneMatrix>(); if n > 0 { let _ = pm[n - 1][n - 1]; } }).is_some();
+            // one row more than `n` must not exist
+            let over = catch(|| { let pm = state.borrow::<PheromoneMatrix>(); let _ = pm[n][0]; }).is_some();
+            if !dim_ok || over { return list(["ok".to_string(), mat_s("pm", n + 1, vec![])]); }
+            list(["ok".to_string(), mat_s("pm", n, read_pm(&state, n))])
+        }
+        Some(Err(_)) => "err".into(),
+        None => "panic".into(),
+    }
+}
+
 /// `(upd kind (pm ..) (pop (ind route obj|none)*))`
 fn run_upd(a: &[Sx]) -> String {
     let kind = parse_kind(&a[0]);
@@ -379,6 +402,7 @@ fn run_inproc(input: &Sx) -> String {
     let (h, a) = input.head().unwrap();
     match h {
         "gen" => run_gen(a),
+        "init" => run_init(a),
         "upd" => run_upd(a),
         "step" => run_step(a),
         "run" => {
@@ -560,8 +584,14 @@ fn main() {
         o
     };
 
+    // 0. the matrix `init` inserts
+    for n in 0..=12u64 {
+        for v in [0.0, 1.0, 0.5, 2.0, 1e-3, 1e-300, 1e12, 0.25, 0.75, 3.0] {
+            emit(&mut out, "AcoGeneration::init", format!("(init {n} {})", fx(v)));
+        }
+    }
     // 1. AcoGeneration alone on arbitrary pheromone matrices
-    let n_gen = if a.thorough { 30000 } else { 3000 };
+    let n_gen = if a.thorough { 30000 } else { 4000 };
     for c in 0..n_gen {
         let malformed = c % 12 == 11;
         // no city at all: outside the property (route `[0]` names a city that does not exist), agreement only
@@ -572,7 +602,7 @@ fn main() {
         emit(&mut out, if malformed { "AcoGeneration/malformed" } else { "AcoGeneration" }, input);
     }
     // 2. the two update components alone on prepared populations
-    let n_upd = if a.thorough { 30000 } else { 3000 };
+    let n_upd = if a.thorough { 30000 } else { 4000 };
     for c in 0..n_upd {
         let malformed = c % 10 == 9;
         let mmas = c % 4 >= 2;
@@ -587,7 +617,7 @@ fn main() {
         emit(&mut out, &site, input);
     }
     // 3. chains of assembled generation → evaluation → update steps: every reached matrix is the next input
-    let n_chain = if a.thorough { 4000 } else { 400 };
+    let n_chain = if a.thorough { 4000 } else { 500 };
     for c in 0..n_chain {
         let mmas = c % 2 == 1;
         let malformed = c % 15 == 14;
